@@ -340,6 +340,17 @@ pub fn scenarios(tier: Tier) -> (Vec<Scenario>, Limits, String) {
         let fs = vec![big.clone()];
         out.push(Scenario { frames: fs.clone(), avail: wire(&fs).len(), max_len: None, ctor: 4, relimit: None });
     }
+    // a limit above the default: both frames around 512 KiB are read; limits at the top of the u32 range
+    for big in large_frames().into_iter().filter(|f| f.payload.len() >= 500_000) {
+        let fs = vec![big.clone()];
+        out.push(Scenario { frames: fs.clone(), avail: wire(&fs).len(), max_len: Some(600_000), ctor: 0, relimit: None });
+    }
+    for m in [0x7fff_ffffu32, 0x8000_0000, u32::MAX - 4, u32::MAX - 3, u32::MAX] {
+        let fs = vec![kinds[0].clone()];
+        out.push(Scenario { frames: fs.clone(), avail: wire(&fs).len(), max_len: Some(m), ctor: 0, relimit: None });
+        let fs = vec![kinds[1].clone(), kinds[0].clone()];
+        out.push(Scenario { frames: fs.clone(), avail: wire(&fs).len(), max_len: None, ctor: 1, relimit: Some((0, m)) });
+    }
     // the limit changed on a reader that has been used
     {
         let big = large_frames()[2].clone(); // 257 payload bytes
@@ -371,7 +382,7 @@ pub fn scenarios(tier: Tier) -> (Vec<Scenario>, Limits, String) {
     }
     out.sort_by_key(|s: &Scenario| std::cmp::Reverse(s.avail));
     let bound = format!(
-        "streams of 0..={} frames over {} payload kinds, <= {} bytes, every truncation point, max_len in {{default, L-1, L, L+1}}, plus frames with payloads of 255..65537 bytes and of 512 KiB / 512 KiB + 1 (the default maximum; deviation budget 2) (reads of more than 32 bytes delivered whole or, as one deviation each, as 1 / half / all-but-one bytes); AsyncReader::new and ::with_buffer(recycled buffer: stale bytes / spare capacity / 640 KiB of capacity); set_max_len lowered / raised after a frame on a used reader (11 scenarios); source: all delivery sizes (free), <= {} consecutive Pending, <= {} transient errors; caller: <= {} dropped futures; total deviation budget {}",
+        "streams of 0..={} frames over {} payload kinds, <= {} bytes, every truncation point, max_len in {{default, L-1, L, L+1}}, plus frames with payloads of 255..65537 bytes and of 512 KiB / 512 KiB + 1 (the default maximum; deviation budget 2) (reads of more than 32 bytes delivered whole or, as one deviation each, as 1 / half / all-but-one bytes); AsyncReader::new and ::with_buffer(recycled buffer: stale bytes / spare capacity / 640 KiB of capacity); set_max_len lowered / raised after a frame on a used reader (11 scenarios); limits 600000 (with frames of 512 KiB and 512 KiB + 1) and 2^31-1 .. u32::MAX; source: all delivery sizes (free), <= {} consecutive Pending, <= {} transient errors; caller: <= {} dropped futures; total deviation budget {}",
         max_frames, kinds.len(), max_bytes, lim.p, lim.e, lim.d, lim.b
     );
     (out, lim, bound)
